@@ -75,7 +75,7 @@ type AllowField struct {
 	ResetIn string   `json:"reset_in,omitempty"` // function whose first mention of the field must be its full reset
 	Stamp   string   `json:"stamp,omitempty"`    // generation memo: Struct.field of the stamp
 	Counter string   `json:"counter,omitempty"`  // generation memo: Struct.field of the counter
-	Writers []string `json:"writers,omitempty"`  // call-scoped: the only functions that may write it
+	Writers []string `json:"writers,omitempty"`  // construction, call-scoped: the only functions that may write it; derived: the only functions that may STORE into it (a write that is not a plain reset)
 }
 
 // StructDefault classifies every field of a struct that has no entry of its own.
@@ -125,6 +125,8 @@ type fieldFact struct {
 	Exported bool
 	Infra    bool            // field of an infrastructure struct (listed whether written or not)
 	Writers  map[string]bool // functions with a post-construction write
+	Stores   map[string]bool // of those: the functions with a write that is not a plain reset (fresh value, clear, ++)
+	Stray    []string        // derived fields: storing functions that are neither pinned nor only called from a pinned one
 	Reads    int
 	Reset    string // full-reset | generation | partial | none
 	Why      string // how Reset was decided (for the notes)
@@ -320,7 +322,7 @@ func (w *world) scanAccesses() {
 		fresh := w.freshLocals(fd)
 		inBuilder := builder[w.fileOf[fd]]
 		writeTargets := map[ast.Expr]bool{}
-		write := func(target ast.Expr) {
+		write := func(target ast.Expr, isReset bool) {
 			k, sel, ok := w.lhsField(target)
 			if !ok {
 				return
@@ -336,21 +338,28 @@ func (w *world) scanAccesses() {
 			}
 			f := w.fact(k)
 			f.Writers[name] = true
+			if !isReset {
+				f.Stores[name] = true
+			}
 		}
 		ast.Inspect(fd.Body, func(n ast.Node) bool {
 			switch x := n.(type) {
 			case *ast.AssignStmt:
 				if x.Tok != token.DEFINE {
-					for _, l := range x.Lhs {
-						write(l)
+					for i, l := range x.Lhs {
+						// a plain reset: the field itself (not an element) gets a fresh value
+						_, direct := w.fieldOf(l)
+						isReset := direct && x.Tok == token.ASSIGN && len(x.Lhs) == len(x.Rhs) && freshValue(x.Rhs[i])
+						write(l, isReset)
 					}
 				}
 			case *ast.IncDecStmt:
-				write(x.X)
+				write(x.X, true)
 			case *ast.CallExpr:
 				if id, ok := x.Fun.(*ast.Ident); ok && (id.Name == "delete" || id.Name == "clear") && len(x.Args) > 0 {
 					if _, isBuiltin := w.info.Uses[id].(*types.Builtin); isBuiltin {
-						write(x.Args[0])
+						_, direct := w.fieldOf(x.Args[0])
+						write(x.Args[0], id.Name == "clear" && direct)
 					}
 				}
 			}
@@ -372,7 +381,7 @@ func (w *world) fact(k fieldKey) *fieldFact {
 	if f := w.facts[k]; f != nil {
 		return f
 	}
-	f := &fieldFact{Key: k, Writers: map[string]bool{}, Reset: "none"}
+	f := &fieldFact{Key: k, Writers: map[string]bool{}, Stores: map[string]bool{}, Reset: "none"}
 	if st := w.structs[k.Struct]; st != nil {
 		for i := 0; i < st.NumFields(); i++ {
 			if st.Field(i).Name() == k.Field {
@@ -602,6 +611,7 @@ func main() {
 		}
 	}
 	w.classifyResets(listed)
+	w.strayStores(listed)
 	globals := w.globalsWritten()
 
 	if *dump {
@@ -688,4 +698,31 @@ func (w *world) directMentions(t types.Type) map[string]bool {
 	}
 	rec(t, 0)
 	return out
+}
+
+// strayStores: for derived fields, the functions that store into the field although the allow-list
+// does not name them and they are not helpers of a named one (only called, transitively, from it).
+func (w *world) strayStores(listed []*fieldFact) {
+	allow := map[string]AllowField{}
+	for _, a := range w.cfg.Fields {
+		allow[a.Field] = a
+	}
+	callers := w.callGraph()
+	for _, f := range listed {
+		a, in := allow[f.Key.String()]
+		if !in || a.Class != "derived" {
+			continue
+		}
+		for _, fn := range sortedKeys(f.Stores) {
+			ok := false
+			for _, p := range a.Writers {
+				if p == fn || w.onlyCalledFrom(fn, p, callers, map[string]bool{}) {
+					ok = true
+				}
+			}
+			if !ok {
+				f.Stray = append(f.Stray, fn)
+			}
+		}
+	}
 }
